@@ -240,6 +240,7 @@ class Canon(object):
     def _canon_function(self, fn, cls, m, outer_first=None):
         self.outer_first = outer_first
         self._subst_consts(fn, cls, m)
+        self._stmt_comprehensions(fn)
         self._hoist_ifexp(fn)
         for _ in range(5):
             if not self._inline_round(fn, cls, m):
@@ -567,6 +568,14 @@ class Canon(object):
                 if isinstance(s, (ast.FunctionDef, ast.AsyncFunctionDef, ast.ClassDef)):
                     out.append(s)
                     continue
+                if isinstance(s, ast.For) and not s.orelse and len(s.body) == 1 and isinstance(s.body[0], ast.Expr) and \
+                        isinstance(s.body[0].value, ast.Yield) and isinstance(s.body[0].value.value, ast.Name) and isinstance(s.target, ast.Name) and \
+                        s.body[0].value.value.id == s.target.id and isinstance(s.iter, ast.Call):
+                    # `for v in self._helper(): yield v` re-yields a helper generator: the same as `yield from self._helper()`
+                    r = canon._resolve_callee(s.iter, fn, cls, m, closures)
+                    uses = sum(1 for n in ast.walk(fn) if isinstance(n, ast.Name) and n.id == s.target.id)
+                    if r is not None and is_generator(r[0]) and callee_ok(r[0]) and r[0] is not fn and uses == 2:
+                        s = ast.copy_location(ast.Expr(value=ast.copy_location(ast.YieldFrom(value=s.iter), s)), s)
                 exprs, hoistable = own_exprs(s)
                 done = False
                 for call, (callee, recv, kind) in find_calls(exprs):
@@ -668,6 +677,9 @@ class Canon(object):
                 used = {n.id for n in ast.walk(fn) if isinstance(n, ast.Name) and isinstance(n.ctx, ast.Load)}
 
                 class Dead(ast.NodeTransformer):
+                    def visit_ClassDef(self, node):
+                        return node                 # methods of a local class are not closures of the host
+
                     def visit_FunctionDef(self, node):
                         if node is fn:
                             return self.generic_visit(node)
@@ -706,6 +718,65 @@ class Canon(object):
         return [ast.For(target=ast.Name(id='%s%d' % (ONCE, self.counter), ctx=ast.Store()),
                         iter=ast.Tuple(elts=[ast.Constant(value=0)], ctx=ast.Load()), body=new + [ast.Break(lineno=line)] if not _always_leaves(new) else new,
                         orelse=[], lineno=line)]
+
+    # ---------------------------------------------------------------- [f(x) for x in it if c]  (statement)  ->  for loop
+    def _stmt_comprehensions(self, fn):
+        """A list / set comprehension evaluated as a statement (its value is discarded) is the loop it abbreviates:
+        `[f(x) for x in it if c]` -> `for x in it: if c: f(x)`.  A comprehension variable that is also a name of the
+        function's scope gets a fresh name (the comprehension had its own scope)."""
+        canon = self
+
+        def outside_names(comp):
+            inside = {id(n) for n in ast.walk(comp)}
+            return {n.id for n in ast.walk(fn) if isinstance(n, ast.Name) and id(n) not in inside} | \
+                {x.arg for x in fn.args.posonlyargs + fn.args.args + fn.args.kwonlyargs}
+
+        def convert(s):
+            comp = s.value
+            if any(g.is_async for g in comp.generators) or any(isinstance(n, (ast.Yield, ast.YieldFrom, ast.Await, ast.NamedExpr)) for n in ast.walk(comp)):
+                return s
+            own = {n.id for g in comp.generators for n in ast.walk(g.target) if isinstance(n, ast.Name)}
+            clash = own & outside_names(comp)
+            if clash:
+                ren = {n: canon._fresh(n) for n in clash}
+                first_iter = comp.generators[0].iter          # evaluated in the enclosing scope: not renamed
+                comp.generators[0].iter = ast.Constant(value=None)
+                comp = Subst(renames=ren).visit(comp)
+                comp.generators[0].iter = first_iter
+            body = [ast.Expr(value=comp.elt, lineno=s.lineno)]
+            for g in reversed(comp.generators):
+                if g.ifs:
+                    test = g.ifs[0] if len(g.ifs) == 1 else ast.BoolOp(op=ast.And(), values=list(g.ifs))
+                    body = [ast.If(test=test, body=body, orelse=[], lineno=s.lineno)]
+                t = g.target
+                for n in ast.walk(t):
+                    if isinstance(n, (ast.Name, ast.Tuple, ast.List, ast.Starred)):
+                        n.ctx = ast.Store()
+                body = [ast.For(target=t, iter=g.iter, body=body, orelse=[], lineno=s.lineno)]
+            canon.stats['spellings'] += 1
+            new = body[0]
+            for n in ast.walk(new):
+                if isinstance(n, (ast.stmt, ast.expr)) and not hasattr(n, 'lineno'):
+                    n.lineno = s.lineno
+            return ast.copy_location(new, s)
+
+        def rec(stmts):
+            out = []
+            for s in stmts:
+                if isinstance(s, (ast.FunctionDef, ast.AsyncFunctionDef, ast.ClassDef)):
+                    out.append(s)
+                    continue
+                if isinstance(s, ast.Expr) and isinstance(s.value, (ast.ListComp, ast.SetComp)):
+                    s = convert(s)
+                for name in ('body', 'orelse', 'finalbody'):
+                    sub_ = getattr(s, name, None)
+                    if isinstance(sub_, list) and sub_ and isinstance(sub_[0], ast.stmt):
+                        setattr(s, name, rec(sub_))
+                for h in getattr(s, 'handlers', []) or []:
+                    h.body = rec(h.body)
+                out.append(s)
+            return out
+        fn.body = rec(fn.body)
 
     # ---------------------------------------------------------------- v = a if c else b  ->  if statement
     def _hoist_ifexp(self, fn):
